@@ -284,8 +284,10 @@ def check_case(case):
 
             m = re.search(r"error: ([^\n]*)", err)
             msg = re.sub(r"‘[^’]*’|'[^']*'", "X", m.group(1))[:60] if m else "?"
+            argnames = {str(a.name) for a in ir.args}
+            vec_arg = any(d.get("op") == "set_memory" and d.get("mem") in ("AVX2", "AVX512") and d.get("on") == "caller" and d.get("buf") in argnames for d in log)
             raise Violation(
-                {"kind": "gcc-rejects-output", "msg": msg},
+                {"kind": "gcc-rejects-output", "msg": msg, "vector_memory_on_argument": str(vec_arg)},
                 f"{where}\n{cmd}\n{err[:1500]}\n--- C:\n{c_text[-2500:]}",
             )
     nondefault = len(log) > 0
